@@ -11,6 +11,7 @@ import (
 	"fmt"
 	"math/rand"
 	"os"
+	"regexp"
 	"strings"
 	"unicode/utf16"
 )
@@ -375,6 +376,15 @@ func (g *gen) block(d int) string {
 		w := []string{"true ? " + asg + " : 0", "[" + asg + "]", "$string(" + asg + ")", `{"k": ` + asg + "}", "(" + asg + ")", "function(){" + asg + "}()", asg}[g.r.Intn(7)]
 		return []string{"($x := 1; (" + w + "); $x)", "($x := 1; " + w + "; $x)", "[(" + w + "), $x]", "($x := 1; ($x := 2; $x); $x)"}[g.r.Intn(4)]
 	case 2:
+		// one call site whose callee is a different function from call to call / from input to input
+		switch g.r.Intn(4) {
+		case 0:
+			return "$map([$uppercase, $lowercase, $string, $length], function($g){$g(" + g.pick(`"aB"`, "b", "c.a", `"Zz"`) + ")})"
+		case 1:
+			return "($f := " + g.pick("flag", "k > 3", "$exists(flag)", "v > 10", "$count(a) > 1") + " ? $uppercase : $lowercase; $f(" + g.pick(`"aB"`, "b", `"Zz"`) + "))"
+		case 2:
+			return "($h := function($g, $x){$g($x)}; [$h($sum, [1, 2]), $h($count, [1, 2]), $h($max, [1, 2])])"
+		}
 		return "($f := function($n){$n <= 1 ? 1 : $n * $f($n - 1)}; $f(4))"
 	case 3:
 		return "($x := 2; $f := function($y){$x + $y}; $x := 5; $f(1))"
@@ -732,6 +742,9 @@ func (g *gen) jsonDoc(d int) interface{} {
 var soupTokens = []string{"a", "$x", "$", "$$", "1", "1.5", "1e3", "\"s\"", "'s'", "`n`", "/r/", "/r/i", "(", ")", "[", "]", "{", "}", ".", "..", ",", ";", ":", ":=",
 	"?", "+", "-", "*", "**", "/", "%", "|", "=", "!=", "<", "<=", ">", ">=", "~>", "^", "&", "and", "or", "in", "true", "false", "null", "function", "λ", "!", "~", "@", "#", "é", "\\", "\"", "'", "`", " ", "\n", "<n:n>", "<a<s>>"}
 
+// a name, a variable, a number or a string literal
+var reWordToken = regexp.MustCompile(`\$?[A-Za-z_][A-Za-z0-9_]*|[0-9]+(\.[0-9]+)?|"[^"\\]*"`)
+
 func (g *gen) compileInput() []byte {
 	switch g.r.Intn(6) {
 	case 0: // random bytes
@@ -751,6 +764,18 @@ func (g *gen) compileInput() []byte {
 			}
 		}
 		return []byte(sb.String())
+	case 3: // one whole token of a valid generated program replaced by a token of another class
+		saved := g.prof
+		g.prof = []string{"mix", "paths", "preds", "ops", "calls", "blocks", "sort", "group", "transform"}[g.r.Intn(9)]
+		src := g.program()
+		g.prof = saved
+		locs := reWordToken.FindAllStringIndex(src, -1)
+		if len(locs) == 0 {
+			return []byte(src)
+		}
+		l := locs[g.r.Intn(len(locs))]
+		repl := g.pick("1", `"c"`, "true", "null", "-1", "1.5", "$", "$$", "*", "**", "%", "(a)", "[a]", "{}", "?", "function($x){$x}", "/a/", "and", "in")
+		return []byte(src[:l[0]] + repl + src[l[1]:])
 	default: // one to three random edits of a valid generated program
 		saved := g.prof
 		g.prof = []string{"mix", "paths", "preds", "ops", "calls", "blocks", "sort", "group", "transform"}[g.r.Intn(9)]
@@ -801,6 +826,32 @@ func genMain(args []string) {
 		g.vars = []string{"v", "w"}
 	}
 	for i := 0; i < *n; i++ {
+		if *prof == "numlits" {
+			// number literals of many digits as programs (C11)
+			r := g.r
+			n := 14 + r.Intn(7)
+			ds := make([]byte, n)
+			for k := range ds {
+				ds[k] = byte('0' + r.Intn(10))
+			}
+			if ds[0] == '0' {
+				ds[0] = '1'
+			}
+			txt := string(ds)
+			switch r.Intn(4) {
+			case 0:
+				k := 1 + r.Intn(n-1)
+				txt = txt[:k] + "." + txt[k:]
+			case 1:
+				txt += fmt.Sprintf("e%d", r.Intn(40)-20)
+			case 2:
+				txt = "0." + txt
+			}
+			b, _ := json.Marshal(M{"id": *start + i, "fam": *fam, "mode": "num", "flags": M{"calls": []interface{}{M{"fn": "literal", "s": cps(txt)}}}})
+			w.Write(b)
+			w.WriteByte('\n')
+			continue
+		}
 		if *prof == "numops" {
 			ops := []string{"+", "-", "*", "/", "%", "%", "<", "<=", ">", ">=", "=", "!=", "&"}
 			x, y := g.numX(), g.numX()
@@ -848,7 +899,7 @@ func genMain(args []string) {
 			switch i % 4 {
 			case 0:
 				fl["fn"] = "from"
-				fl["pic"] = cps("[Y0001]-[M01]-[D01] [FNn] [d] [W] [h]:[m01]:[s01] [P] [MNn]")
+				fl["pic"] = cps("[Y0001]-[M01]-[D01] [FNn] [d] [W] [h]:[m01]:[s01] [P] [MNn] [d1o] [D1o] [Y1o] [W1o]")
 			case 1:
 				fl["fn"] = "rt"
 				off := (g.r.Intn(113) - 56) * 15
